@@ -87,7 +87,8 @@ def check_unit(ctx, rule, unit_name, fn, results, eng, table, is_fatal_fn):
     may_upgrade = unit_name in table["may_upgrade_soft_child_error"]
     ext_ok = unit_name in table["external_result_without_rewind"]
     rewind_ok = unit_name in table["rewinds_on_success"]
-    viol = {"S": [], "F": [], "S'": [], "M": [], "B": [], "R": [], "L": []}
+    viol = {"S": [], "F": [], "S'": [], "M": [], "B": [], "R": [], "L": [], "D": []}
+    unit_parses_children = any(ts.get("parsed", 0) > 0 for _v, ts in results if not ts.get("cut"))
     l_paths = 0
     n_cut = 0
     n_paths = 0
@@ -115,6 +116,12 @@ def check_unit(ctx, rule, unit_name, fn, results, eng, table, is_fatal_fn):
             viol["M"].append("set_position with a value not read in this invocation (line %s)" % ts["m_viol"][0])
         soft = eng.softness_of(ts, e, is_fatal_fn) if e is not None else None
         children = ts["children"]
+        # D: a combinator that has a child does not answer in its place: an error of its own making
+        # (the default soft error) is returned only after a child was asked
+        if kind == "err" and unit_parses_children and ts.get("parsed", 0) == 0 and e[0] == "errobj" \
+                and ts["origin"].get(e[1], ("",))[0] == "default":
+            viol["D"].append("returns a soft error of its own without having run any child parser: the result is not "
+                             "the child's (a child that succeeds without input, or fails fatally, is overruled)")
         # S
         passthrough = (unit_name in table.get("inner_result_passthrough", {}) and kind == "err"
                        and e[0] == "errobj" and ts["origin"].get(e[1], ("",))[0] == "child")
